@@ -45,6 +45,7 @@ type Path struct {
 	stores   map[string]*StoreData
 	calllog  []string
 	fmtNames map[string]string
+	fmtLenAx map[int]bool
 	decs     []decRendering // decimal renderings with uninterpreted digits (values of more than decExactDigits digits)
 	envReads []string
 	curInst  func() string
